@@ -1,7 +1,7 @@
 #!/bin/bash
 # tools/confirm_seeded.sh <ID> <A|B>   — confirm a seeded change in a scratch worktree of /repo HEAD
 ID=$1; V=$2
-SRC=/tmp/seed/out-$ID/$V
+SRC=${SEEDBASE:-/tmp/seed}/out-$ID/$V
 WT=/tmp/confirm-$ID-$V
 git -C /repo worktree remove --force $WT >/dev/null 2>&1
 git -C /repo worktree add --detach $WT HEAD >/dev/null 2>&1 || { echo "$ID $V worktree failed"; exit 2; }
